@@ -339,6 +339,14 @@ int main(int argc, char *argv[])
   if (create_list == 1)
   {
     char filename[1024];
+
+    // Leave room for new_extension() to add ".lst".
+    if (strlen(outfile) + 5 > sizeof(filename))
+    {
+      printf("Error: Output filename is too long.\n");
+      exit(1);
+    }
+
     strcpy(filename, outfile);
 
     new_extension(filename, "lst", 1024);
